@@ -32,6 +32,11 @@ def scanStep (s : Scan) : Ev → Scan
   | .branchEnd => match s.stack with
     | h :: rest => { s with held := h, stack := rest }     -- an early-return branch does not affect the main path
     | [] => s
+  | .recv _ => s                                            -- channel operations take and release no mutex
+  | .send _ => s
+  | .closeCh _ => s
+  | .selectStart => s
+  | .selectEnd => s
 
 /-- (write target, mutexes held there, in goroutine closure) for one function -/
 def writesWithLocks (evs : List Ev) : List (String × List String × Bool) :=
